@@ -135,7 +135,7 @@ func c13Gen(t *tape.Tape, ownProp func(string) bool) (prelude, recv string, step
 		s1, s2, s3 := next(), next(), next()
 		// the methods' results depend on every argument they receive, so a dropped or
 		// reordered argument shows in the value
-		prelude = fmt.Sprintf("o := {_pm: m{|a| S(%d); .bear({lp: a})}, ma: m{|a| S(%d); .bear({la: a})}, mb: m{|a, k: 0, j: 5, _p: 2| S(%d); .bear({lb: [a, k, j, _p, \\_]})}, mi: m{S(%d); 7}, v: 3}\n", s1, s1, s2, s3)
+		prelude = fmt.Sprintf("o := {_pm: m{|a| S(%d); .bear({lp: a})}, ma: m{|a| S(%d); .bear({la: a})}, mb: m{|a, k: 0, j: 5, _p: 2| S(%d); .bear({lb: [a, k, j, _p, \\_]})}, mi: m{S(%d); 7}, mf: m{|n| S(%d); {|x| x + n}}, v: 3}\n", s1, s1, s2, s3, s3)
 		recv = "o"
 		for i := 0; i < k; i++ {
 			last := i == k-1
@@ -165,7 +165,11 @@ func c13Gen(t *tape.Tape, ownProp func(string) bool) (prelude, recv string, step
 				sl := next()
 				steps = append(steps, c13Step{"lit", fmt.Sprintf(".{|x| S(%d); x}", sl), sl})
 			case 3:
-				if last {
+				if last && t.Chance(1, 2) {
+					// a step whose result is itself a function: a value like any other, held and
+					// handed out by every accessor, never called
+					steps = append(steps, c13Step{"method-func", fmt.Sprintf(".mf(%d)", t.Intn(9)), s3})
+				} else if last {
 					steps = append(steps, c13Step{"method-int", ".mi", s3})
 				} else {
 					steps = append(steps, c13Step{"method", ".ma(1)", s1})
@@ -246,6 +250,10 @@ func c13Gen(t *tape.Tape, ownProp func(string) bool) (prelude, recv string, step
 			steps = append(steps, c13Step{"missing", ".nosuchprop", 0})
 		default:
 			sl := next()
+			if i == k-1 && t.Chance(1, 3) {
+				steps = append(steps, c13Step{"lit-func-value", fmt.Sprintf(".{|x| S(%d); {|y| y + x}}", sl), sl})
+				break
+			}
 			steps = append(steps, c13Step{"lit-nested", fmt.Sprintf(".{|x| {|y| S(%d); (y * 2)}(x)}", sl), sl})
 		}
 	}
